@@ -30,6 +30,14 @@ with B the same scalar product of the |cores| (computed exactly as well); only i
 * `C16.stab.extreme_cores`   the property as written for per-core scales 2^-200 / 2^-170 / 2^+520 (adjacent products
                              below core_stab's threshold 1e-100 resp. above 2^1023 before the rescaling happens).
 
+* `C16.orthogonalize.huge_core`  ONE core scaled by 2^520 .. 2^900 (beyond half the double range: squares, Gram matrices and
+                             2-norms computed by squaring overflow there, the scaled LAPACK kernels do not) at the first / last /
+                             a middle position, optionally with rank-1 bonds next to it and neighbours of 2^-300 .. 2^10; every
+                             pivot.  Regime restricted to what the sweeps can represent (each core and the product of the two
+                             cores at either end within [2^-300, 2^960]; outside: finding C16.stab.extreme_cores).  The whole
+                             contract of stab_large + exact relative distance of 2^p Z to Y; where all partial products are
+                             representable also the plain run: finite, denotes Y, coincides with the stabilised one.
+
 * `C16.rescale.exponent_only`  rescaling one core (first / second / mid / penultimate / last) by 2^t, t in {1, -3, 17, -40,
                              100}: mul_scalar, norm and orthogonalize shift their exponent by exactly t (2t if both arguments
                              of the scalar product are rescaled) and return the same mantissa (bit-identical values; QR
@@ -58,7 +66,8 @@ CASE_TIMEOUT = 120
 BOUNDS = ('d in {2, 3, 10, 60, 500, 2100, 3000}, rank 1..3 and 5 (3000: rank <= 2 quick), n in {1, 2, 3, 5, 17, mixed}, 5 families, '
           '11 exponent profiles, totals 2^-30000 .. 2^+30000 (|per-core exponent| <= 80 down / 200 up), pivots {0, 1, d/3, d/2, 2d/3, '
           'd-2, d-1, None}, truncate e 1e-12..0.3 / rank caps / is_eigh, accuracy separations 2^100..2^640, one-core rescalings 2^t, '
-          'exact big-integer reference')
+          'exact big-integer reference; orthogonalize with ONE core of 2^520..2^900 (first / last / middle, rank-1 bonds on either '
+          'side, neighbours 2^-300..2^10, d = 3..60 and 1200, stabilised and - where representable - plain: 542 quick cases)')
 
 EPS = np.finfo(float).eps
 PROFILES = ('zero', 'up', 'down', 'alt', 'front', 'back', 'rand', 'ramp')
@@ -192,13 +201,14 @@ def modes(d, n):
     return [int(n)] * d if isinstance(n, int) else [int(n[k % len(n)]) for k in range(d)]
 
 
-def make(d, r, n, seed, fam, prof, s, exps=None, tshift=0):
+def make(d, r, n, seed, fam, prof, s, exps=None, tshift=0, rr=None):
     """TT-tensor of a family with exact power-of-two per-core scales; returns (Y, exps).  n: int or list (cyclic);
     tshift: the exponents of the first |tshift| cores (cyclically) are raised / lowered by one more, so that the total
-    exponent moves by exactly tshift."""
+    exponent moves by exactly tshift.  rr: explicit rank profile (entries 1 or r) instead of the uniform one."""
     g = gen.rng('C16tt', d, r, n, seed, fam)
     nn = modes(d, n)
-    rr = [1] + [1 if fam == 'rank1s' else r] * (d - 1) + [1]
+    if rr is None:
+        rr = [1] + [1 if fam == 'rank1s' else r] * (d - 1) + [1]
     Y = []
     if fam == 'rot':
         # orthogonally conjugated block-diagonal cores: r (nearly) orthogonal rank-1 terms; bond k is rotated by an
@@ -402,6 +412,18 @@ def orth_stab(d, r, n, seed, fam, prof, s, kmode):
     out = teneva.orthogonalize(Y, k, use_stab=True)
     if gen.snapshot(Y) != snap:
         return FAIL('input changed')
+    return _orth_verify(Y, ex, out, d, r, n, seed, k)
+
+
+def _kappa_log2(Y, ex, N, E):
+    """log2 of prod_j ||G_j||_F / ||Y|| (the normwise condition of the QR sweeps), from the exact <Y, Y> = N 2^E"""
+    lg = sum(math.log2(max(np.linalg.norm(np.ldexp(G, -e)), 1e-300)) + e for G, e in zip(Y, ex))
+    m, b = me(N)
+    return lg - 0.5 * (math.log2(m) + b + E)
+
+
+def _orth_verify(Y, ex, out, d, r, n, seed, k):
+    """the contract of C16.orthogonalize.stab_large for a given result `out` of orthogonalize(Y, k, use_stab=True)"""
     if not isinstance(out, tuple) or len(out) != 2:
         return FAIL('no (Z, p) pair')
     Z, p = out
@@ -452,6 +474,93 @@ def orth_stab(d, r, n, seed, fam, prof, s, kmode):
             qq = bigratio(num, en + int(p), den, ed)
             if not abs(qq - 1) <= 256 * d * EPS:
                 return FAIL(f'rank 1: 2^p Z[i] / Y[i] = {qq!r} at a sampled multi-index (p = {p})')
+    return PASS
+
+
+def _rel_dist2(Y, Z, p):
+    """exact ||Y - 2^p Z||^2 / ||Y||^2 (big-integer scalar products), None for a zero tensor"""
+    N11, E11 = exact_dot(Y, Y)
+    if N11 == 0:
+        return None
+    N12, E12 = exact_dot(Y, Z)
+    N22, E22 = exact_dot(Z, Z)
+    S, ES = combine([(1, N11, E11), (-2, N12, E12 + int(p)), (1, N22, E22 + 2 * int(p))])
+    return abs(bigratio(S, ES, N11, E11))
+
+
+HUGE_LO, HUGE_HI = -300, 960
+
+
+@clause('C16.orthogonalize.huge_core', funcs=('transformation.orthogonalize', 'transformation.orthogonalize_left',
+                                              'transformation.orthogonalize_right', 'core.core_stab'))
+def orth_huge_core(d, r, n, seed, fam, bg, pos, ex, nb, rk1, kmode, plain):
+    """ONE core (position `pos`: first / last / mid / ...) carries 2^ex with ex beyond half the double range (squares
+    overflow above 2^512), its neighbours 2^nb (nb = None: like all other cores 2^bg); rk1 = 1 / 2 / 3: the bond on the
+    left / right / both sides of that core has rank 1.  Inside the regime in which the sweeps are representable (every
+    core and the product of the two cores at either end within [2^-300, 2^960]; see the known finding
+    C16.stab.extreme_cores for the outside) orthogonalize(Y, k, use_stab=True) satisfies the whole contract of
+    C16.orthogonalize.stab_large and 2^p Z denotes Y (exact relative distance).  plain = True (all partial products of
+    the sweeps representable): the plain orthogonalize(Y, k) is finite, denotes Y and coincides with the stabilised
+    result core by core (2^p on the pivot core)."""
+    j = _pivot(d, pos)
+    j = d - 1 if j is None else j
+    rr = [1] + [r] * (d - 1) + [1]
+    if rk1 & 1 and j > 0:
+        rr[j] = 1
+    if rk1 & 2 and j < d - 1:
+        rr[j + 1] = 1
+    exps = [int(bg)] * d
+    if nb is not None:
+        for i in (j - 1, j + 1):
+            if 0 <= i < d:
+                exps[i] = int(nb)
+    exps[j] = int(ex)
+    ends = [exps[0] + exps[1], exps[-1] + exps[-2]] if d > 1 else []
+    if not all(HUGE_LO <= e <= HUGE_HI for e in exps + ends):
+        return SKIP('outside the regime in which the sweeps are representable (known finding C16.stab.extreme_cores)')
+    Y, exps = make(d, r, n, seed, fam, 'zero', 0, exps=exps, rr=rr)
+    k = _pivot(d, kmode)
+    snap = gen.snapshot(Y)
+    try:
+        out = teneva.orthogonalize(Y, k, use_stab=True)
+    except Exception as e:
+        return FAIL(f'orthogonalize(k={k}, use_stab=True) raised {type(e).__name__}: {str(e)[:200]} (ranks {rr if d <= 12 else "..."}, '
+                    f'core {j} scaled by 2^{ex})')
+    if gen.snapshot(Y) != snap:
+        return FAIL('input changed')
+    res = _orth_verify(Y, exps, out, d, r, n, seed, k)
+    if res[0] == 'fail':
+        return res
+    Z, p = out
+    kk = d - 1 if k is None else k
+    N, E = exact_dot(Y, Y)
+    if N == 0:
+        return TRIVIAL('exactly-zero tensor')
+    tol = 256.0 * d * r * EPS * 2.0 ** min(500.0, _kappa_log2(Y, exps, N, E))
+    rel2 = _rel_dist2(Y, Z, p)
+    if not rel2 <= tol * tol:
+        return FAIL(f'2^p Z does not denote Y: exact relative distance {math.sqrt(rel2) if np.isfinite(rel2) else rel2!r} > {tol:.3e} '
+                    f'(p = {p}, k = {kk}, core {j} scaled by 2^{ex})')
+    left = [sum(exps[:i + 1]) for i in range(kk + 1)]
+    right = [sum(exps[i:]) for i in range(kk, d)]
+    if not plain or d > 12 or not all(-900 <= c <= 900 for c in left + right):
+        return res                  # the plain sweeps are not (safely) representable: nothing more is stated
+    Zp = teneva.orthogonalize(Y, k)
+    if gen.snapshot(Y) != snap:
+        return FAIL('input changed (plain run)')
+    msg = gen.wf(Zp, modes(d, n))
+    if msg:
+        return FAIL('plain result not well-formed: ' + msg)
+    if not gen.finite(Zp):
+        return FAIL(f'plain orthogonalize(k={kk}): non-finite cores although every partial product is representable '
+                    f'(per-core exponents {exps}, ranks {rr})')
+    rel2 = _rel_dist2(Y, Zp, 0)
+    if not rel2 <= tol * tol:
+        return FAIL(f'plain orthogonalize(k={kk}) does not denote Y: exact relative distance {math.sqrt(rel2)!r} > {tol:.3e}')
+    for i in range(d):
+        A = np.ldexp(Z[i], int(p)) if i == kk else Z[i]
+        if A.shape != Zp[i].shape or not np.abs(A - Zp[i]).max() <= 64 * EPS * max(1e-300, np.abs(Zp[i]).max()):
+            return FAIL(f'orthogonalize(k={kk}): core {i} differs between the stabilised and the plain run')
     return PASS
 
 
@@ -978,3 +1087,33 @@ def cases(tier, seed):
         yield 'C16.accuracy.relative_distance', dict(base, rel=('other', 'perturbed', 'huge_vs_tiny')[int(g.integers(0, 3))])
         if fam != 'int':
             yield 'C16.truncate.stab_large', dict(base, e=float(10.0 ** g.uniform(-8, -2)), inflate=('dup', 'decay')[int(g.integers(0, 2))])
+    # (i) ONE core beyond half the double range (2^520 .. 2^900; squares / Gram matrices / 2-norms by squaring overflow,
+    # the scaled LAPACK kernels do not), at the first / last / a middle position, with and without rank-1 bonds next to it,
+    # every pivot position; neighbours 2^-300 so that the plain sweeps stay representable as well (plain = True)
+    kmodes = ('first', 'last', 'mid', 'second', 'penult')
+    c = 0
+    for d in (3, 5, 10, 60) + ((2, 4, 200) if big else ()):
+        for pos in ('first', 'last', 'mid') + (('second', 'penult') if big else ()):
+            for r in (1, 2, 3):
+                for rk1 in ((0,) if r == 1 else (0, 1, 2, 3)):
+                    for rep in range(5 if big else 2):
+                        c += 1
+                        fam = ('pos', 'gauss', 'rot', 'int')[c % 4]
+                        nb, bg = ((None, 0), (-300, 0), (None, 10), (None, -10), (-250, 5))[(c // 2) % 5]
+                        yield 'C16.orthogonalize.huge_core', dict(d=d, r=r, n=2 + (c % 7 == 0), seed=c, fam=fam, bg=bg, pos=pos,
+                                                                  ex=(600, 900, 520, 700)[(c // 3) % 4], nb=nb, rk1=rk1,
+                                                                  kmode=kmodes[(c + rep) % 5], plain=d <= 10)
+    # the plain run with a core that is above 2^512 at the moment it is processed, behind / in front of a rank-1 bond
+    for d in (3, 5, 8):
+        for r in (1, 2, 3):
+            for fam in ('pos', 'gauss'):
+                for pos, kmode in (('mid', 'first'), ('mid', 'last'), ('last', 'first'), ('first', 'last'), ('second', 'last'), ('penult', 'first')):
+                    for ex, nb in ((900, -300), (600, None), (800, -200)):
+                        for rk1 in ((0,) if r == 1 else ((1, 2, 3) if big else (1 + (d + r + ex // 100) % 3,))):
+                            yield 'C16.orthogonalize.huge_core', dict(d=d, r=r, n=2, seed=d + r, fam=fam, bg=0, pos=pos, ex=ex, nb=nb,
+                                                                      rk1=rk1, kmode=kmode, plain=True)
+    # thousands of modes: the scale sits in ONE end core on top of a total far outside the double range
+    for d, r, rk1, bg, pos, ex, kmode in ((1200, 1, 0, 10, 'last', 600, 'first'), (1200, 3, 1, -10, 'last', 700, 'mid')) + \
+            (((1200, 2, 2, 10, 'first', 650, 'last'), (2500, 1, 0, -10, 'first', 900, 'mid'), (1200, 3, 3, 5, 'mid', 800, 'first')) if big else ()):
+        yield 'C16.orthogonalize.huge_core', dict(d=d, r=r, n=2, seed=d, fam='pos', bg=bg, pos=pos, ex=ex, nb=None, rk1=rk1,
+                                                  kmode=kmode, plain=False)
